@@ -65,6 +65,14 @@ def main(prop):
         run.count("traces_validated_against_impl")
         if res != [[], ["401126"], [], []]:
             run.failure("item_sequence/CONSTRUCTED-FIRST", f"three matchers (full-match rule that must not be found, substring rule that must be found, full-match rule) constructed first, then run, the first run twice: {res}, expected [[], ['401126'], [], []]", {"kind": "sequence", "items": [], "seq": []})
+        # one matcher object asked twice: the second answer is about the SAME listing, not about the listing followed by itself
+        # (a rule made of the last instruction followed by the first one is found only across such a seam)
+        seam = {"pattern": ["ret", {"cal": ["4011"]}]}
+        res2 = _j.constructed_first_results([seam, plain], L1)
+        st2 = _j.constructed_first_results([seam, plain], L1, ret="stream")
+        run.count("traces_validated_against_impl", 2)
+        if res2 != [[], ["401126"], []] or st2[0] != st2[2]:
+            run.failure("item_sequence/ASKED-TWICE", f"rule [ret, call] (last instruction, then the first) on a listing call/test/je/ret, one matcher object run twice: {res2} (expected [[], ['401126'], []]); stream of the second run equals the first: {st2[0] == st2[2]}", {"kind": "sequence", "items": [], "seq": []})
         # the same listing stored with CRLF line ends, under every flag setting (a stray '\r' would only show under full match)
         L2 = "".join(f"    {a}:\t{b:<21}\t{t}\n" for a, b, t in [("1000", "55", "push   %rbp"), ("1001", "48 89 e5", "mov    %rsp,%rbp"), ("1004", "31 c0", "xor    %eax,%eax"), ("1006", "c9", "leave"), ("1007", "c3", "ret")])
         for mf, of in T.FLAGS:
@@ -121,6 +129,10 @@ def main(prop):
                 run.count("traces_validated_against_impl")
                 if a in got2:
                     run.failure("item/RARE-SHAPE/rotated", f"instruction at {a}: rule {m}: {rot} (operand names rotated) is found there although operand k does not contain name k", {"kind": "sequence", "items": [], "seq": []})
+    if prop == "C02":
+        from checks import c11 as _c11t
+
+        _c11t.times_long_probe(run)
     if prop == "C03":
         from checks import c11 as _c11b
 
